@@ -24,7 +24,7 @@ type c13Doc struct {
 	mergeKind, posSel int
 }
 
-var c13MergeNames = []string{"alias", "list-one", "list-a-b", "list-b-a"}
+var c13MergeNames = []string{"alias", "list-one", "list-a-b", "list-b-a", "alias-to-a-merging-map"}
 var c13PosNames = []string{"merge-first", "merge-middle", "merge-last"}
 
 // c13ExplicitAlias: when set, the second explicit value of H is an alias (*x) to an anchored scalar instead of a plain
@@ -43,6 +43,10 @@ func c13Build(ka1, ka2, kb1, kb2, e1, e2 string, mergeKind, pos int) *yaml.Node 
 	b.Anchor = "b"
 	aliasA := func() *yaml.Node { return &yaml.Node{Kind: yaml.AliasNode, Value: "a", Alias: a} }
 	aliasB := func() *yaml.Node { return &yaml.Node{Kind: yaml.AliasNode, Value: "b", Alias: b} }
+	if mergeKind == 4 {
+		// A: &a {<<: *b, KA1: 1, KA2: 2} — the merged map has a merge key of its own (B then precedes A in the document)
+		a.Content = append([]*yaml.Node{{Kind: yaml.ScalarNode, Tag: "!!merge", Value: "<<"}, aliasB()}, a.Content...)
+	}
 	var x *yaml.Node
 	switch mergeKind {
 	case 0:
@@ -51,8 +55,10 @@ func c13Build(ka1, ka2, kb1, kb2, e1, e2 string, mergeKind, pos int) *yaml.Node 
 		x = vSeq(aliasA())
 	case 2:
 		x = vSeq(aliasA(), aliasB())
-	default:
+	case 3:
 		x = vSeq(aliasB(), aliasA())
+	default:
+		x = aliasA()
 	}
 	mk := &yaml.Node{Kind: yaml.ScalarNode, Tag: "!!merge", Value: "<<"}
 	h := vMap()
@@ -71,11 +77,19 @@ func c13Build(ka1, ka2, kb1, kb2, e1, e2 string, mergeKind, pos int) *yaml.Node 
 			h.Content = append(h.Content, entries[i][0], entries[i][1])
 		}
 	}
+	first, second := []*yaml.Node{vStr("A"), a}, []*yaml.Node{vStr("B"), b}
+	if mergeKind == 4 {
+		first, second = second, first
+	}
+	var content []*yaml.Node
 	if c13ExplicitAlias {
 		// the anchor has to precede its alias in document order (YAML forbids forward references)
-		return vMap(vStr("X"), xAnch, vStr("A"), a, vStr("B"), b, vStr("H"), h, vStr("S"), aliasA())
+		content = append(content, vStr("X"), xAnch)
 	}
-	return vMap(vStr("A"), a, vStr("B"), b, vStr("H"), h, vStr("S"), aliasA())
+	content = append(content, first...)
+	content = append(content, second...)
+	content = append(content, vStr("H"), h, vStr("S"), aliasA())
+	return &yaml.Node{Kind: yaml.MappingNode, Tag: "!!map", Content: content}
 }
 
 // c13Ref: value the merge-key rules define for key q in H ("" = absent).
@@ -106,6 +120,13 @@ func c13Ref(q, ka1, ka2, kb1, kb2, e1, e2 string, mergeKind int) (string, string
 	case 0, 1:
 		if okA {
 			return va, "merged"
+		}
+	case 4: // a's own keys, then what a merges from b
+		if okA {
+			return va, "merged"
+		}
+		if okB {
+			return vb, "merged-through-the-merged-map"
 		}
 	case 2: // earlier list entries win
 		if okA && okB {
@@ -189,7 +210,7 @@ var c13RouteNames = []string{"traverse", "explode-then-traverse", "printer-explo
 // VerifC13Resolve: every read route gives the value the merge-key rules define.
 func VerifC13Resolve() {
 	ka1, ka2, kb1, kb2, e1, e2 := c13Keys()
-	mergeKind := verifChoice("merge", 4)
+	mergeKind := verifChoice("merge", 5)
 	pos := verifChoice("pos", 3)
 	q := verifStrN("q", 1, "ad")
 	want, src := c13Ref(q, ka1, ka2, kb1, kb2, e1, e2, mergeKind)
@@ -246,7 +267,7 @@ func c13Clean(n *CandidateNode) bool {
 // VerifC13Explode: explode removes every alias, merge key and anchor and changes no other value.
 func VerifC13Explode() {
 	ka1, ka2, kb1, kb2, e1, e2 := c13Keys()
-	mergeKind := verifChoice("merge", 4)
+	mergeKind := verifChoice("merge", 5)
 	pos := verifChoice("pos", 3)
 	c13ExplicitAlias = verifChoice("explicitValueIsAlias", 2) == 1
 	label := c13MergeNames[mergeKind] + " " + c13PosNames[pos]
@@ -267,18 +288,93 @@ func VerifC13Explode() {
 	}
 	verifAssert(c13Clean(out), "C13/explode-leaves-alias-merge-or-anchor "+label)
 	// A, B and S keep their values
+	find := func(name string) *CandidateNode {
+		for i := 0; i+1 < len(out.Content); i += 2 {
+			if out.Content[i].Value == name {
+				return out.Content[i+1]
+			}
+		}
+		verifFail("C13/explode-lost-a-top-level-key " + name)
+		return nil
+	}
 	wantA := "{<!!str " + ka1 + ">: <!!int 1>, <!!str " + ka2 + ">: <!!int 2>}"
 	wantB := "{<!!str " + kb1 + ">: <!!int 3>, <!!str " + kb2 + ">: <!!int 4>}"
-	verifAssert(verifEqStr(vDump(out.Content[off+1]), wantA), "C13/explode-changes-anchored-map "+label)
-	verifAssert(verifEqStr(vDump(out.Content[off+3]), wantB), "C13/explode-changes-anchored-map "+label)
-	verifObserve("S", vDump(out.Content[off+7]))
-	verifAssert(verifEqStr(vDump(out.Content[off+7]), wantA), "C13/explode-alias-value "+label)
+	verifAssert(verifEqStr(vDump(find("B")), wantB), "C13/explode-changes-anchored-map "+label)
+	if mergeKind != 4 {
+		// (with kind 4 the anchored map A has a merge key itself: its exploded value holds B's keys too)
+		verifAssert(verifEqStr(vDump(find("A")), wantA), "C13/explode-changes-anchored-map "+label)
+		verifObserve("S", vDump(find("S")))
+		verifAssert(verifEqStr(vDump(find("S")), wantA), "C13/explode-alias-value "+label)
+	}
+	_ = off
 	// H has no duplicate keys
-	h := out.Content[off+5]
+	h := find("H")
 	for i := 0; i+1 < len(h.Content); i += 2 {
 		for j := i + 2; j+1 < len(h.Content); j += 2 {
 			verifAssert(!verifEqStr(h.Content[i].Value, h.Content[j].Value), "C13/explode-duplicate-key "+label)
 		}
 	}
 	verifCover("C13/explode/end")
+}
+
+// VerifC13RedefinedAnchor: an anchor name used twice. An alias stands for the most recent node that carried the name
+// before it (YAML 1.2 §7.1): R1 reads the first map, R2 and the merge in H the second — on all three read routes.
+//   A1: &a {k: V1, K1: 1}   R1: *a   A2: &a {k: V2, K2: 2}   R2: *a   H: {<<: *a, e: 5}
+func VerifC13RedefinedAnchor() {
+	v1, v2 := verifStrN("v1", 1, "09"), verifStrN("v2", 1, "09")
+	k1, k2 := verifStrN("k1", 1, "ac"), verifStrN("k2", 1, "ac")
+	a1 := vMap(vStr("k"), vInt(v1), vStr(k1), vInt("1"))
+	a1.Anchor = "a"
+	a2 := vMap(vStr("k"), vInt(v2), vStr(k2), vInt("2"))
+	a2.Anchor = "a"
+	alias := func(t *yaml.Node) *yaml.Node { return &yaml.Node{Kind: yaml.AliasNode, Value: "a", Alias: t} }
+	h := vMap(&yaml.Node{Kind: yaml.ScalarNode, Tag: "!!merge", Value: "<<"}, alias(a2), vStr("e"), vInt("5"))
+	root := vMap(vStr("A1"), a1, vStr("R1"), alias(a1), vStr("A2"), a2, vStr("R2"), alias(a2), vStr("H"), h)
+	route := verifChoice("route", 3)
+	which := verifChoice("read", 4)
+	paths := []string{".R1.k", ".R2.k", ".H.k", ".H.QKEY"}
+	doc := vDoc(root)
+	text := paths[which]
+	if route == 1 {
+		text = "explode(.) | " + text
+	} else if route == 2 {
+		exp := ExpressionNode{Operation: &Operation{OperationType: explodeOpType}}
+		if _, err := vEval(&exp, doc); err != nil {
+			verifFail("C13/redefined-explode-error")
+		}
+	}
+	e := vParse(text)
+	q := verifStrN("q", 1, "ac")
+	vSubst(e, "QKEY", "", q)
+	res, err := c03EvalReadOnly(e, doc)
+	label := c13RouteNames[route] + " read=" + paths[which]
+	verifAssert(err == nil, "C13/redefined-read-error "+label)
+	if err != nil {
+		return
+	}
+	got := ""
+	if res.Len() == 1 {
+		r := res.Front().Value.(*CandidateNode)
+		if r.Kind == AliasNode && r.Alias != nil {
+			r = r.Alias
+		}
+		got = r.Value
+	}
+	want := ""
+	switch which {
+	case 0:
+		want = v1
+	case 1, 2:
+		want = v2
+	default:
+		switch {
+		case verifConcreteBool(verifEqStr(q, k2)):
+			want = "2"
+		default:
+			want = "" // K1 belongs to the first map only: not merged into H (unless it equals K2, handled above)
+		}
+	}
+	verifObserve("got", got)
+	verifAssert(verifEqStr(got, want), "C13/alias-of-a-redefined-anchor-reads-the-wrong-node "+label)
+	verifCover("C13/redefined/end")
 }
